@@ -35,7 +35,7 @@ type realStep struct {
 	Index [][3]int  `json:"index"` // per node: connstate FindClientNode (kind, node, conn)
 }
 type realOut struct {
-	Variant [6]int     `json:"variant"`
+	Variant [7]int     `json:"variant"`
 	Steps   []realStep `json:"steps"`
 	PropOK  bool       `json:"prop_ok"`
 	PropKey string     `json:"prop_key"`
